@@ -798,6 +798,9 @@ def extract_item(repo, item, log):
         text = splice_fn(text, item, log)
     if item.get("prefix"):
         text = item["prefix"] + text
+    if item.get("suffix"):
+        # e.g. the `;` of a `const X: T = T { .. };` item, whose located span ends at the closing brace
+        text = text + item["suffix"]
     wrap = item.get("wrap")
     if wrap:
         text = "%s {\n%s\n}" % (wrap, text)
